@@ -144,7 +144,9 @@ let stmt st toks =
        | (m1, Some aut) -> st.m <- m1; dump_aut aut
        | (_, None) -> raise Panic)
   | "trycompile" -> let (a, _) = term st c in let k = ci c in
-      (match get (compile_with_bound fuel st.m a (Some (nat_of_int k))) with
+      (* the bound only matters relative to the number of states, which is below the fuel: clamp huge
+         bounds (2^32 and beyond) so that the unary nat stays small *)
+      (match get (compile_with_bound fuel st.m a (Some (nat_of_int (min k 100000)))) with
        | (m1, Some aut) -> st.m <- m1; "S " ^ string_of_int (int_of_nat aut.num_states)
        | (m1, None) -> st.m <- m1; "N")
   | "accepts" -> let (a, _) = term st c in let k = ci c in let alpha = cword c in
